@@ -258,7 +258,7 @@ def dupspell_specs(tier, seed):
         red = {}
         for n in range(3, 160, 1 + i % 2):
             order = [[1, 0, 2], [2, 0, 1], [0, 1, 0], [1, 2, 0]][(n + i) % 4]
-            red[n] = [[0, 1, fl, (n // 5) % 2, 30 + 45 * j] for j, fl in enumerate(order)]
+            red[n] = [[0, 1 + j, fl, (n // 5) % 2, 30 + 45 * j] for j, fl in enumerate(order)]     # every copy with an id of its own
         out.append({"seed": seed * 100000 + 2500 + i,
                     "sess": {"qtype": QTYPES[i % 7], "lazy": 1, "fragsize": [None, 200, 100][i % 3]},
                     "relay": {}, "redeliver": red, "pkts": packets(seed + 250 + i, tier), "dur_ms": 30000,
